@@ -21,7 +21,14 @@ fn work_root() -> PathBuf {
 }
 
 pub fn cleanup_work() {
-    let _ = std::fs::remove_dir_all(work_root());
+    // everything of this process except the crash slots (engine::note_case), which stay mapped
+    if let Ok(rd) = std::fs::read_dir(work_root()) {
+        for e in rd.flatten() {
+            if e.file_name() != "slots" {
+                let _ = std::fs::remove_dir_all(e.path());
+            }
+        }
+    }
 }
 
 /// Analyse `main` (given as a string) with the named files laid out in one fresh directory that is
